@@ -164,8 +164,8 @@ Proof.
     destruct ref; try r_same.
     + destruct (is_nullsafe a); r_same.
     + destruct (is_nullsafe a); r_same.
-    + destruct oi as [i|]; [|r_same]. destruct (i =? -1)%Z; [r_same | apply IH; assumption].
-    + destruct k; [r_same | apply IH; assumption].
+    + destruct oi as [i|]; [apply IH; assumption | r_same].
+    + destruct oi as [i|]; [r_same | apply IH; assumption].
 Qed.
 
 Lemma rel_print_dirs l : Forall Q l -> Phi (print_dirs cf w l) (print_dirs cf w' l).
